@@ -172,8 +172,9 @@ def prog_spec_queries():
 def prog_compare():
     import operator
     out = []
-    ifs = [InterfaceClass(n, (Interface,), {}, __module__=m) for n, m in
-           [('', ''), ('A', 'm'), ('A', 'n'), ('B', 'm'), ('Ж', 'm'), ('A\U0001F600', 'm'), ('A', 'm')]]
+    ifs = [InterfaceClass(''.join(list(n)), (Interface,), {}, __module__=''.join(list(m))) for n, m in
+           [('', ''), ('A', 'm'), ('A', 'n'), ('B', 'm'), ('Ж', 'm'), ('A\U0001F600', 'm'), ('A', 'm'),
+            ('IРесурсА', 'm'), ('IРесурсБ', 'm'), ('Name', 'mod1'), ('Name', 'mod2')]]
     ifs.append(implementedBy(Cls))
     others = [v for _, v in odd_values()]
     ops = [('<', operator.lt), ('<=', operator.le), ('>', operator.gt), ('>=', operator.ge), ('==', operator.eq), ('!=', operator.ne)]
